@@ -18,7 +18,9 @@ import (
 	"sync"
 	"time"
 
-	"github.com/andydunstall/piko/client"
+	agentconfig "github.com/andydunstall/piko/agent/config"
+	"github.com/andydunstall/piko/agent/reverseproxy"
+	"github.com/andydunstall/piko/pkg/log"
 	"github.com/andydunstall/piko/server/cluster"
 	"github.com/andydunstall/piko/server/config"
 
@@ -52,7 +54,7 @@ type c08seen struct {
 }
 
 type rawUpstream struct {
-	ln      client.Listener
+	ln      net.Listener
 	mu      sync.Mutex
 	scripts map[string]*c08script
 	seen    map[string]*c08seen
@@ -64,6 +66,33 @@ func newRawUpstream(n *Node, endpoint string) (*rawUpstream, error) {
 	if err != nil {
 		return nil, err
 	}
+	return serveRaw(ln), nil
+}
+
+// newRawOrigin: the same recording responder on a plain loopback TCP port (the
+// service behind a piko agent's HTTP reverse proxy).
+func newRawOrigin() (*rawUpstream, error) {
+	ln, err := net.Listen("tcp", "127.0.0.1:0")
+	if err != nil {
+		return nil, err
+	}
+	return serveRaw(ln), nil
+}
+
+// startAgentHTTP runs the agent's real HTTP reverse proxy (what `piko agent http`
+// serves on its listener) for endpoint on node n, forwarding to originAddr.
+func startAgentHTTP(n *Node, endpoint, originAddr string, timeout time.Duration) (*reverseproxy.Server, error) {
+	ln, err := listen(n, endpoint, ListenOpts{})
+	if err != nil {
+		return nil, err
+	}
+	srv := reverseproxy.NewServer(agentconfig.ListenerConfig{EndpointID: endpoint, Addr: originAddr,
+		Protocol: agentconfig.ListenerProtocolHTTP, Timeout: timeout, AccessLog: log.AccessLogConfig{Level: "info"}}, reverseproxy.NewMetrics("proxy"), log.NewNopLogger())
+	go func() { _ = srv.Serve(ln) }()
+	return srv, nil
+}
+
+func serveRaw(ln net.Listener) *rawUpstream {
 	u := &rawUpstream{ln: ln, scripts: map[string]*c08script{}, seen: map[string]*c08seen{}, conns: map[net.Conn]struct{}{}}
 	go func() {
 		for {
@@ -74,7 +103,7 @@ func newRawUpstream(n *Node, endpoint string) (*rawUpstream, error) {
 			go u.handle(c)
 		}
 	}()
-	return u, nil
+	return u
 }
 
 func (u *rawUpstream) script(id string, s *c08script) {
@@ -126,6 +155,11 @@ func (u *rawUpstream) handle(c net.Conn) {
 	if sc.Behavior == "close-now" {
 		return
 	}
+	if sc.Behavior == "stall" {
+		// stops reading after the head: neither consumes the body nor answers
+		time.Sleep(15 * time.Second)
+		return
+	}
 	body, _ := io.ReadAll(req.Body)
 	gz := strings.Contains(req.Header.Get("Accept-Encoding"), "gzip")
 	u.mu.Lock()
@@ -143,6 +177,7 @@ func (u *rawUpstream) handle(c net.Conn) {
 		fmt.Fprintf(c, "HTTP/1.1 200 OK\r\nX-Partial: yes\r\nContent-Le")
 		return
 	case "upgrade":
+		time.Sleep(time.Duration(sc.DelayMs) * time.Millisecond)
 		fmt.Fprintf(c, "HTTP/1.1 101 Switching Protocols\r\nUpgrade: %s\r\nConnection: Upgrade\r\n\r\n", req.Header.Get("Upgrade"))
 		// echo
 		_ = c.SetDeadline(time.Now().Add(30 * time.Second))
@@ -368,6 +403,18 @@ type c08rig struct {
 	nodes   []*Node
 	up      *rawUpstream
 	timeout time.Duration
+	// the agent path: endpoint "c08a" on node 0 is served by the agent's real HTTP
+	// reverse proxy, which forwards to a raw recording origin on plain TCP
+	origin *rawUpstream
+	agent  *reverseproxy.Server
+}
+
+// recorder returns the responder that terminates requests sent on the given path.
+func (rg *c08rig) recorder(via string) *rawUpstream {
+	if strings.HasPrefix(via, "agent") {
+		return rg.origin
+	}
+	return rg.up
 }
 
 func newC08Rig(timeout time.Duration) (*c08rig, error) {
@@ -401,8 +448,16 @@ func newC08RigAsym(ownerTimeout, timeout time.Duration) (*c08rig, error) {
 		return nil, err
 	}
 	rg := &c08rig{nodes: nodes, up: up, timeout: timeout}
+	if rg.origin, err = newRawOrigin(); err != nil {
+		return nil, err
+	}
+	// the agent's own timeout is the owner node's: transparency rigs run with 5 min
+	if rg.agent, err = startAgentHTTP(nodes[0], "c08a", rg.origin.ln.Addr().String(), ownerTimeout); err != nil {
+		return nil, err
+	}
 	if !core.WaitUntil(20*time.Second, 5*time.Millisecond, func() bool {
-		return nodes[0].Cluster().LocalNode().Endpoints["c08"] == 1
+		e := nodes[0].Cluster().LocalNode().Endpoints
+		return e["c08"] == 1 && e["c08a"] == 1
 	}) {
 		return nil, fmt.Errorf("upstream did not register")
 	}
@@ -413,14 +468,15 @@ func newC08RigAsym(ownerTimeout, timeout time.Duration) (*c08rig, error) {
 }
 
 func (rg *c08rig) entry(via string) *Node {
-	if via == "forwarded" {
+	if via == "forwarded" || via == "agent-forwarded" {
 		return rg.nodes[1]
 	}
 	return rg.nodes[0]
 }
 
 func (rg *c08rig) transparency(c c08case, body []byte, sh *core.Shard) (sig, what string, retry bool) {
-	rg.up.script(c.ID, c.Script)
+	rec := rg.recorder(c.Via)
+	rec.script(c.ID, c.Script)
 	hs := append([][2]string{{"X-Case", c.ID}}, c.Headers...)
 	raw := BuildRequest(c.Method, c.Target, c.Host, hs, body, c.Chunked)
 	t0 := time.Now()
@@ -428,7 +484,7 @@ func (rg *c08rig) transparency(c c08case, body []byte, sh *core.Shard) (sig, wha
 	// hang" with its own short timeouts): a multi-megabyte exchange through two
 	// race-built proxies on a starved machine has taken more than 15 s
 	resp, err := RawRequest(rg.entry(c.Via).ProxyAddr(), raw, c.Method, 5*time.Minute)
-	seen := rg.up.take(c.ID)
+	seen := rec.take(c.ID)
 	if err != nil {
 		if time.Since(t0) >= 299*time.Second {
 			return "hang", fmt.Sprintf("request %s got no complete response within 5 min: %v", c.ID, err), false
@@ -577,11 +633,22 @@ type c08fault struct {
 
 func (rg *c08rig) faultMatrix(sh *core.Shard) (sig, what string) {
 	tmo := rg.timeout
-	check := func(name string, raw []byte, addr string, want int, minT, maxT time.Duration) (string, string) {
+	var check func(name string, raw []byte, addr string, want int, minT, maxT time.Duration) (string, string)
+	slowRetries := 0
+	check = func(name string, raw []byte, addr string, want int, minT, maxT time.Duration) (string, string) {
 		t0 := time.Now()
 		resp, err := RawRequest(addr, raw, "GET", 20*time.Second)
 		el := time.Since(t0)
 		sh.Count("fault_cases", 1)
+		if err == nil && want == 200 && resp.Status == 504 && el >= tmo && slowRetries < 3 {
+			// a 504 no earlier than the timeout is the timeout working: on a starved
+			// machine the 100 ms answer took longer than 400 ms to get through. Repeated;
+			// a gateway that keeps timing out on a fast upstream is reported.
+			slowRetries++
+			sh.Count("gateway_timeouts_under_load", 1)
+			time.Sleep(200 * time.Millisecond)
+			return check(name, raw, addr, want, minT, maxT)
+		}
 		if err != nil {
 			if el >= 19*time.Second {
 				return "hang", fmt.Sprintf("fault case %q: no response within 20 s (%v)", name, err)
@@ -643,6 +710,51 @@ func (rg *c08rig) faultMatrix(sh *core.Shard) (sig, what string) {
 		if s, w := check("upstream closes mid-headers via "+via, mk(id("mid"), &c08script{Behavior: "close-mid-headers"}), addr, 502, 0, long); s != "" {
 			return s, w
 		}
+		// 504 also when the request cannot even be sent completely: the upstream stops
+		// reading after the head while the client streams a body far larger than the
+		// buffers on the way (the timeout bounds the whole exchange, not only the wait
+		// for response headers)
+		if s, w := func() (string, string) {
+			cid := id("stall")
+			rg.up.script(cid, &c08script{Behavior: "stall"})
+			defer rg.up.take(cid)
+			sh.Count("fault_cases", 1)
+			c, err := net.DialTimeout("tcp", addr, 5*time.Second)
+			if err != nil {
+				return "fault-no-response", "dial: " + err.Error()
+			}
+			defer c.Close()
+			_ = c.SetDeadline(time.Now().Add(25 * time.Second))
+			const total = 96 << 20
+			fmt.Fprintf(c, "POST /fault HTTP/1.1\r\nHost: c08.piko.test\r\nX-Case: %s\r\nContent-Type: application/octet-stream\r\nContent-Length: %d\r\nConnection: close\r\n\r\n", cid, total)
+			t0 := time.Now()
+			go func() {
+				buf := make([]byte, 64<<10)
+				for sent := 0; sent < total; sent += len(buf) {
+					if _, err := c.Write(buf); err != nil {
+						return
+					}
+				}
+			}()
+			resp, err := http.ReadResponse(bufio.NewReader(c), &http.Request{Method: "POST"})
+			el := time.Since(t0)
+			name := "upstream stops reading a 96 MiB request body via " + via
+			if err != nil {
+				if el >= 24*time.Second {
+					return "hang", fmt.Sprintf("fault case %q: no response within 25 s (%v): the proxy timeout %s did not end the exchange", name, err, tmo)
+				}
+				return "fault-no-response", fmt.Sprintf("fault case %q: %v after %s (expected status 504)", name, err, el)
+			}
+			if resp.StatusCode != 504 {
+				return "fault-wrong-status", fmt.Sprintf("fault case %q: got %d after %s, expected 504", name, resp.StatusCode, el)
+			}
+			if el < tmo-20*time.Millisecond || el > tmo+5*time.Second {
+				return "fault-too-late", fmt.Sprintf("fault case %q: 504 after %s (timeout %s)", name, el, tmo)
+			}
+			return "", ""
+		}(); s != "" {
+			return s, w
+		}
 		rg.up.take(id("hang"))
 		rg.up.take(id("late"))
 		rg.up.take(id("slow-ok"))
@@ -655,7 +767,13 @@ func (rg *c08rig) faultMatrix(sh *core.Shard) (sig, what string) {
 				connHdr = "keep-alive, Upgrade"
 			}
 			cid := id(fmt.Sprintf("upg-%s-%d", tok, ti))
-			rg.up.script(cid, &c08script{Behavior: "upgrade"})
+			usc := &c08script{Behavior: "upgrade"}
+			if ti == 1 {
+				// the exemption covers the handshake too: a 101 that takes twice the
+				// proxy timeout to arrive is still relayed
+				usc.DelayMs = 2 * int(tmo/time.Millisecond)
+			}
+			rg.up.script(cid, usc)
 			sh.Count("fault_cases", 1)
 			c, err := net.DialTimeout("tcp", addr, 5*time.Second)
 			if err != nil {
@@ -755,6 +873,132 @@ func (rg *c08rig) asymTimeouts(sh *core.Shard) (sig, what string) {
 	return "", ""
 }
 
+// agentFaults: the agent's HTTP reverse proxy (agent/reverseproxy, what `piko agent http`
+// runs) is itself a gateway in front of the local service: with the server nodes'
+// timeouts far away (rg.timeout, 60 s) and the agent's at tmo, the agent must map its
+// own failures the same way - 502 unreachable/closed, 504 at its own timeout, upgrades
+// exempt - whether the request entered at the agent's node or was forwarded to it.
+func (rg *c08rig) agentFaults(tmo time.Duration, sh *core.Shard) (sig, what string) {
+	n0 := rg.nodes[0]
+	if _, err := startAgentHTTP(n0, "c08b", rg.origin.ln.Addr().String(), tmo); err != nil {
+		return "", "inconclusive: " + err.Error()
+	}
+	dead, _ := net.Listen("tcp", "127.0.0.1:0")
+	deadAddr := dead.Addr().String()
+	dead.Close()
+	if _, err := startAgentHTTP(n0, "c08dead", deadAddr, tmo); err != nil {
+		return "", "inconclusive: " + err.Error()
+	}
+	if !core.WaitUntil(20*time.Second, 5*time.Millisecond, func() bool {
+		e := n0.Cluster().LocalNode().Endpoints
+		return e["c08b"] == 1 && e["c08dead"] == 1
+	}) {
+		return "", "inconclusive: agent listeners did not register"
+	}
+	if ok, why := WaitSettled(rg.nodes, 20*time.Second); !ok {
+		return "", "inconclusive: not settled: " + why
+	}
+	long := 20 * time.Second
+	check := func(name string, raw []byte, addr string, want int, minT, maxT time.Duration) (string, string) {
+		for try := 0; ; try++ {
+			t0 := time.Now()
+			resp, err := RawRequest(addr, raw, "GET", 30*time.Second)
+			el := time.Since(t0)
+			sh.Count("agent_fault_cases", 1)
+			if err != nil {
+				if el >= 29*time.Second {
+					return "hang", fmt.Sprintf("agent fault case %q: no response within 30 s (%v)", name, err)
+				}
+				return "fault-no-response", fmt.Sprintf("agent fault case %q: %v after %s (expected status %d)", name, err, el, want)
+			}
+			if resp.Status == 502 && want != 502 && try < 3 && !bytes.Contains(resp.Body, []byte("upstream unreachable")) {
+				// answered by a server node (no available upstreams: the other node was
+				// suspected under load), not by the agent: re-settle and repeat
+				WaitSettled(rg.nodes, 30*time.Second)
+				continue
+			}
+			if want == 200 && resp.Status == 504 && el >= tmo && try < 3 {
+				sh.Count("gateway_timeouts_under_load", 1)
+				continue // the agent's timeout legitimately expired on a starved machine
+			}
+			if resp.Status != want {
+				return "fault-wrong-status", fmt.Sprintf("agent fault case %q: got %d after %s, expected %d (body %q)", name, resp.Status, el, want, clipBytes(resp.Body))
+			}
+			if el < minT {
+				return "fault-too-early", fmt.Sprintf("agent fault case %q: %d after %s, earlier than the agent's timeout %s", name, resp.Status, el, tmo)
+			}
+			if el > maxT {
+				return "fault-too-late", fmt.Sprintf("agent fault case %q: %d only after %s (agent timeout %s)", name, resp.Status, el, tmo)
+			}
+			return "", ""
+		}
+	}
+	for _, via := range []string{"local", "forwarded"} {
+		addr := rg.entry(via).ProxyAddr()
+		mk := func(id string, sc *c08script) []byte {
+			rg.origin.script(id, sc)
+			return BuildRequest("GET", "/fault", "c08b.piko.test", [][2]string{{"X-Case", id}}, nil, false)
+		}
+		id := func(s string) string { return "ag-" + s + "-" + via }
+		if s, w := check("service never answers via "+via, mk(id("hang"), &c08script{Behavior: "hang"}), addr, 504, tmo-20*time.Millisecond, tmo+5*time.Second); s != "" {
+			return s, w
+		}
+		if s, w := check("service answers after the agent's timeout via "+via, mk(id("late"), &c08script{Behavior: "delay", DelayMs: int(tmo/time.Millisecond) * 3, Status: 200, Headers: [][2]string{{"Content-Type", "text/plain"}}}), addr, 504, tmo-20*time.Millisecond, tmo+5*time.Second); s != "" {
+			return s, w
+		}
+		if s, w := check("service answers inside the agent's timeout via "+via, mk(id("slow-ok"), &c08script{Behavior: "delay", DelayMs: int(tmo/time.Millisecond) / 4, Status: 200, Headers: [][2]string{{"Content-Type", "text/plain"}}}), addr, 200, 0, long); s != "" {
+			return s, w
+		}
+		if s, w := check("service closes at once via "+via, mk(id("close-now"), &c08script{Behavior: "close-now"}), addr, 502, 0, long); s != "" {
+			return s, w
+		}
+		if s, w := check("service closes mid-headers via "+via, mk(id("mid"), &c08script{Behavior: "close-mid-headers"}), addr, 502, 0, long); s != "" {
+			return s, w
+		}
+		if s, w := check("service port closed via "+via, BuildRequest("GET", "/", "c08dead.piko.test", nil, nil, false), addr, 502, 0, long); s != "" {
+			return s, w
+		}
+		for _, k := range []string{"hang", "late", "slow-ok", "mid"} {
+			rg.origin.take(id(k))
+		}
+		for ti, tok := range []string{"websocket", "WebSocket", "websocket"} {
+			connHdr := "Upgrade"
+			if ti == 2 {
+				connHdr = "keep-alive, Upgrade"
+			}
+			cid := id(fmt.Sprintf("upg-%d", ti))
+			rg.origin.script(cid, &c08script{Behavior: "upgrade"})
+			sh.Count("agent_fault_cases", 1)
+			c, err := net.DialTimeout("tcp", addr, 5*time.Second)
+			if err != nil {
+				return "fault-no-response", "dial: " + err.Error()
+			}
+			fmt.Fprintf(c, "GET /ws HTTP/1.1\r\nHost: c08b.piko.test\r\nX-Case: %s\r\nUpgrade: %s\r\nConnection: %s\r\nSec-WebSocket-Version: 13\r\nSec-WebSocket-Key: dGhlIHNhbXBsZSBub25jZQ==\r\n\r\n", cid, tok, connHdr)
+			_ = c.SetDeadline(time.Now().Add(30 * time.Second))
+			br := bufio.NewReader(c)
+			resp, err := http.ReadResponse(br, &http.Request{Method: "GET"})
+			if err != nil || resp.StatusCode != 101 {
+				c.Close()
+				st := 0
+				if resp != nil {
+					st = resp.StatusCode
+				}
+				return "upgrade-failed", fmt.Sprintf("through the agent, Upgrade: %s (Connection: %s) via %s: expected 101 from the service, got status %d err %v", tok, connHdr, via, st, err)
+			}
+			time.Sleep(4 * tmo)
+			msg := "still-open\n"
+			_, werr := c.Write([]byte(msg))
+			line, rerr := br.ReadString('\n')
+			c.Close()
+			rg.origin.take(cid)
+			if werr != nil || rerr != nil || line != msg {
+				return "timeout-applied-to-upgrade", fmt.Sprintf("through the agent, Upgrade: %s (Connection: %s) via %s: the upgraded connection did not survive %s idle (agent timeout %s): write err %v, read %q err %v", tok, connHdr, via, 4*tmo, tmo, werr, line, rerr)
+			}
+		}
+	}
+	return "", ""
+}
+
 func runC08(sh *core.Shard, a props.Args) {
 	if a.Shard%4 == 0 {
 		// the failure matrix runs on its own cluster with a short proxy timeout
@@ -792,6 +1036,26 @@ func runC08(sh *core.Shard, a props.Args) {
 		}
 		sh.Exhaustive["asymmetric_timeouts"] = true
 	}
+	if a.Shard%4 == 1 {
+		fmt.Printf("CASE C08 agent fault matrix\n")
+		grg, err := newC08Rig(60 * time.Second)
+		if err != nil {
+			sh.Inconcl("C08 agent fault rig: %v", err)
+			return
+		}
+		sig, what := grg.agentFaults(400*time.Millisecond, sh)
+		StopAll(grg.nodes)
+		sh.Eval()
+		if sig == "" && strings.HasPrefix(what, "inconclusive") {
+			sh.Inconcl("C08 agent fault rig: %s", what)
+			return
+		}
+		if sig != "" {
+			sh.Violate(sig, what, map[string]any{"kind": "agent-fault-matrix"})
+			return
+		}
+		sh.Exhaustive["agent_fault_matrix"] = true
+	}
 	// transparency runs with a proxy timeout that a loaded machine does not hit
 	rg, err := newC08Rig(5 * time.Minute)
 	if err != nil {
@@ -810,16 +1074,20 @@ func runC08(sh *core.Shard, a props.Args) {
 			continue
 		}
 		r := rand.New(rand.NewSource(a.CaseSeed(i)))
-		c := c08case{ID: fmt.Sprintf("c%d", i), Via: []string{"local", "forwarded"}[r.Intn(2)],
+		c := c08case{ID: fmt.Sprintf("c%d", i), Via: []string{"local", "forwarded", "local", "forwarded", "agent", "agent-forwarded"}[r.Intn(6)],
 			Method: c08Methods[r.Intn(len(c08Methods))], Target: c08Target(r), Headers: c08Headers(r)}
+		ep := "c08"
+		if strings.HasPrefix(c.Via, "agent") {
+			ep = "c08a"
+		}
 		if r.Intn(3) == 0 {
-			c.Host = "c08.piko.test:8000"
+			c.Host = ep + ".piko.test:8000"
 		} else {
-			c.Host = "c08.piko.test"
+			c.Host = ep + ".piko.test"
 		}
 		if r.Intn(5) == 0 {
 			c.Host = "other.example.org"
-			c.Headers = append(c.Headers, [2]string{"x-piko-endpoint", "c08"})
+			c.Headers = append(c.Headers, [2]string{"x-piko-endpoint", ep})
 		}
 		var body []byte
 		if c.Method != "GET" && c.Method != "HEAD" || r.Intn(10) == 0 {
@@ -889,7 +1157,7 @@ func init() {
 			"reason phrases, header-name case and Date/Content-Length/Transfer-Encoding framing are not part of the comparison (hop-by-hop or case-insensitive by the HTTP spec)",
 			"every scripted response carries a Content-Type, so net/http's content sniffing (which would add one) is not exercised",
 		},
-		RequireCounters: []string{"requests_local", "requests_forwarded", "fault_cases", "asymmetric_timeout_cases", "gzip_transparently_decoded"},
+		RequireCounters: []string{"requests_local", "requests_forwarded", "requests_agent", "requests_agent-forwarded", "agent_fault_cases", "fault_cases", "asymmetric_timeout_cases", "gzip_transparently_decoded"},
 		Shards:          func(string) int { return 16 },
 		Run:             runC08,
 	})
